@@ -1,4 +1,5 @@
 import FmpRpc.Model.Text
+import FmpRpc.Model.Monitors
 /-
   Oracle: runs the model's executable definitions on the operations the Go
   harness ran on the implementation, one line in, one line out.
@@ -68,6 +69,14 @@ def handle (line : String) : String :=
       let ctx : Ctx := { methods := defaultMethods, pending := pend, decompress := zLookup z }
       stepsText s.length (run max ctx s)
     | _, _, _, _ => "bad-op"
+  | "mon" :: max :: _ =>
+    match max.toNat? with
+    | some max =>
+      -- the history is everything after "mon <max> "
+      let body := (line.drop (4 + (toString max).length + 1)).toString
+      let v := Mon.all max (parseHist body)
+      if v.isEmpty then "ok" else "viol " ++ " ".intercalate v
+    | none => "bad-op"
   | _ => "bad-op"
 
 partial def loop (h : IO.FS.Stream) (out : IO.FS.Stream) : IO Unit := do
